@@ -96,6 +96,7 @@ type FuncVC struct {
 	retCount  int
 	bv        bool
 	abstractBSeq bool
+	lastAbs      map[string]Term // abstract accumulator results of the latest call (for after-clauses)
 	usedAxioms map[string]bool
 	defers    []deferred
 	iterPos   map[ssa.Value]*ssa.Alloc
